@@ -58,6 +58,21 @@ static int copy_xattr(sqfs_writer_t *sqfs, const char *filename,
 	}
 
 	for (xattr = list; xattr != NULL; xattr = xattr->next) {
+		/*
+		  The tar reader builds its xattr list back to front: an
+		  element in front of this one with the same key comes from
+		  a later PAX record and overrides it.
+		 */
+		const sqfs_xattr_t *later;
+
+		for (later = list; later != xattr; later = later->next) {
+			if (strcmp(later->key, xattr->key) == 0)
+				break;
+		}
+
+		if (later != xattr)
+			continue;
+
 		ret = sqfs_xattr_writer_add(sqfs->xwr, xattr);
 
 		if (ret == SQFS_ERROR_UNSUPPORTED) {
